@@ -88,9 +88,17 @@ impl<'de> serde::de::SeqAccess<'de> for ArraySeqAccess {
         T: serde::de::DeserializeSeed<'de>,
     {
         match self.iter.next() {
-            Some(v) => seed
-                .deserialize(crate::de::ValueDeserializer::new(v))
-                .map(Some),
+            Some(v) => {
+                let span = v.span();
+                seed.deserialize(crate::de::ValueDeserializer::new(v))
+                    .map(Some)
+                    .map_err(|mut e: Self::Error| {
+                        if e.span().is_none() {
+                            e.set_span(span);
+                        }
+                        e
+                    })
+            }
             None => Ok(None),
         }
     }
